@@ -184,3 +184,54 @@ def obligations(ctx):
                 if (hashed or None) != (emitted or None) and not (hashed == [] and emitted is None):
                     ob.violation("sources %s: hashed datum list %s differs from the emitted one %s" % (srcs, hashed, emitted))
         ob.finish(E)
+    dedup_notions(ctx)
+
+
+def dedup_notions(ctx):
+    """The script-data hash covers the datum list as `to_set_bytes` de-duplicates it (PlutusList::deduplicated_view), the
+    witness set emits it as `set_plutus_data` de-duplicates it (PlutusList::deduplicated_clone).  PlutusData has a derived
+    Ord (structure, then preserved original bytes) and a hand-written PartialEq / Hash (structure only): the two
+    de-duplications must keep the same elements for EVERY list — in particular for two datums with equal structure and
+    different original bytes.  Lists of 2-3 datums; every coincidence pattern of structures and of original bytes."""
+    import itertools
+    P = ctx.P
+    ob = Obligation(ctx, "c09_e2_hash_and_emission_deduplicate_alike", "lists of 2-3 datums; structure and original-bytes identities coincide or differ independently (solver-explored)",
+                    ["PlutusList::deduplicated_view", "PlutusList::deduplicated_clone", "<PlutusData as Ord>::cmp", "<PlutusData as PartialEq>::eq"], fallback_native="e2n_c09_battery")
+    agg = Engine(P)
+    U = agg.U
+    names = P.struct_fields["PlutusData"]
+    for n in (2, 3):
+        runs = {}
+        for fn in ("PlutusList::deduplicated_view", "PlutusList::deduplicated_clone"):
+            E = Engine(P, max_loop=n + 3)
+            E.U = U
+            def mk(E=E, n=n):
+                elems = []
+                for j in range(n):
+                    kw = {names[0]: VLazy("structure%d" % j, "PlutusDataEnum"), names[1]: VEnum("Option", "Some", [VLazy("bytes%d" % j, "std::vec::Vec<u8>")])}
+                    elems.append(E.mk_struct("PlutusData", **kw))
+                return [R(E.mk_struct("PlutusList", elems=VSeq(elems, "vec")), "self")]
+            outs = []
+            for o in E.explore(fn, mk, max_paths=600):
+                if o.kind != "return":
+                    ob.vc("no panic in %s (%s %s)" % (fn, o.kind, o.msg[:80]), o.pc, z3.BoolVal(False)); continue
+                E.enter(o)
+                v = VM.deref(E, o.value)
+                seq = v if isinstance(v, VSeq) else VM.deref(E, v.fields[P.struct_fields["PlutusList"].index("elems")])
+                kept = []
+                for x in seq.items:
+                    x = VM.deref(E, x)
+                    st = VM.deref(E, x.fields[0])
+                    kept.append(int(st.path[len("structure"):]) if isinstance(st, VLazy) and st.path.startswith("structure") else None)
+                outs.append((kept, list(o.pc)))
+            runs[fn] = outs
+            agg.stats["paths"] += E.stats["paths"]; agg.stats["feasibility_queries"] += E.stats["feasibility_queries"]; agg.stats["functions"] |= E.stats["functions"]
+        a, b = runs["PlutusList::deduplicated_view"], runs["PlutusList::deduplicated_clone"]
+        if not a or not b:
+            ob.fail("no returning path for %d datums" % n); continue
+        for (ka, pa), (kb, pb) in itertools.product(a, b):
+            if ka != kb:
+                # two executions that keep different elements must not be possible for the same list
+                ob.vc("%d datums: the hash side keeps elements %s, the emission side %s — for the same list" % (n, ka, kb), pa + pb, z3.BoolVal(False))
+    ob.cross_every = 8
+    ob.finish(agg, lambda m, info=None: ("e2n_c09_battery", []))
